@@ -514,6 +514,40 @@ def run(rep, ctx):
             g = [(render(f.nodes[cid]).replace(" ", ""), pol) for cid, pol in f.cfg.facts_at(rs[0])]
             ok = any(t.endswith(".size()<=i") and pol is True for t, pol in g) and all(not f.cfg.before(i_, rs[0]) for i_ in idx)
         t2.check(ok, "setter-resizes|%s|%s" % (f.name, f.full.split("<")[-1][:30]), short_loc(f.loc), "%s grows the vector to Size() before writing element i" % f.name)
+    # the merge rule of SetNum, evaluated on (stored, incoming) pairs: an empty slot (0) takes any incoming value; a filled one
+    # only a larger non-zero value - so negative values (duals, flags) arrive and the order of propagations does not matter
+    for f in all_of("mp::pre::ValueNode::SetNum")[:2]:
+        bad = []
+        for old_ in (-2.0, -1.0, 0.0, 1.0, 3.0):
+            for v_ in (-3.0, -1.0, 0.0, 1.0, 2.0, 5.0):
+                cell = {"v": old_}
+
+                def atom(t_, n_, env_):
+                    if n_["k"] == "CXXOperatorCallExpr" and n_.get("op") == "[]":
+                        return cell["v"]
+                    if n_["k"] == "CXXMemberCallExpr" and (n_.get("callee") or "").split("::")[-1] == "size":
+                        return 10
+                    if n_["k"] == "CXXMemberCallExpr" and (n_.get("callee") or "").split("::")[-1] in ("Size", "resize"):
+                        return 10
+                    return None
+
+                def store(t_, n_, val, env_):
+                    if n_["k"] == "CXXOperatorCallExpr" and n_.get("op") == "[]":
+                        cell["v"] = val
+                        return True
+                    return False
+                mi = MiniInt(F, atom)
+                mi.store = store
+                try:
+                    mi.call(f, [("obj", None, None), 3, v_])
+                except AnalysisBroken as e_:
+                    if "without a return" not in str(e_):
+                        raise AnalysisBroken("C04.T2: SetNum: %s" % e_)
+                want = v_ if old_ == 0.0 else (v_ if (v_ > old_ and v_ != 0.0) else old_)
+                if cell["v"] != want:
+                    bad.append((old_, v_, cell["v"], want))
+        t2.check(not bad, "setnum-merge|%s" % f.full.split("<")[-1][:30], short_loc(f.loc), "30 (stored, incoming) pairs: 0 is overwritten by any value, a non-zero value only by a larger non-zero one",
+                 "(stored, incoming, result, expected) = %s: values are lost on the way through a non-copy link (a negative dual or flag arriving at an empty slot is replaced by 0)" % bad[:3])
     cu = one("mp::pre::ValueNode::CleanUpAndRealloc")
     rs = calls(cu, name="resize")
     cl = calls(cu, name="clear")
